@@ -324,8 +324,14 @@ func (node *Node) clone(tree *MutableTree) (*Node, error) {
 		if err != nil {
 			return nil, err
 		}
-		node.leftNode = nil
-		node.rightNode = nil
+		// A persisted node may be shared with concurrent readers of committed versions
+		// (through the node cache): do not write to it unless there is something to clear.
+		if node.leftNode != nil {
+			node.leftNode = nil
+		}
+		if node.rightNode != nil {
+			node.rightNode = nil
+		}
 	}
 
 	return &Node{
